@@ -23,6 +23,7 @@ BUILTIN = {"type": None, "line": "line", "file": "file", "function": "function",
 
 def run(ck):
     F = ck.facts
+    attribute_setter(ck)
     ck.rule("C13-O1", "format(): every entry of allAttributes() is inserted unconditionally as (it.key(), QJsonValue::fromVariant(it.value())) into the serialised object")
     ck.rule("C13-O2", "allAttributes(): exactly the built-in keys, each bound to its same-named accessor, then overlaid with the custom attributes, returned")
     ck.rule("C13-O3", "the result is QString::fromUtf8(QJsonDocument(obj).toJson(mode)) unedited; mode is Compact iff m_compact")
@@ -298,3 +299,28 @@ def mode_reaches_formatter(ck):
             ck.ob("C13-O4", sitestr(ft, a), None, "formatToJson obtains the formatter from %s(); idiom not recognised" % cal.name.split("::")[-1])
     else:
         ck.ob("C13-O4", sitestr(ft, apps[0]), None, "formatToJson appends %s; idiom not recognised" % describe(a)[:80])
+
+
+def attribute_setter(ck, rid="C13-O6"):
+    """attribute values are recovered exactly: LogMessage::setAttribute(name, value) stores exactly (name, value) on every path.  A skip
+    'when the value is unchanged' decided with QVariant::operator== drops writes: in Qt 5 that comparison converts (1 == true,
+    "404" == 404, ["1","2"] == [1,2]), so a value of another type that compares equal is never stored."""
+    F = ck.facts
+    ck.rule(rid, "LogMessage::setAttribute inserts (name, value) into m_attributes on every path; no 'unchanged' short cut decided by the converting QVariant equality")
+    fn = F.fn(LM + "::setAttribute")
+    ck.touch(fn)
+    g = Graph(fn)
+    ins = [n for n in fn.calls() if n.get("ck") == "member" and name_is(n.get("callee"), ("insert", "operator[]")) and is_this_field(n.get("obj"), LM + "::m_attributes")]
+    ins += [n for n in fn.calls() if n.get("op") == "=" and n.get("args") and any(is_this_field(x, LM + "::m_attributes") for x in walk(n["args"][0]))]
+    okargs = bool(ins) and all(any(is_ref_to(skip_copies(x), fn.params[1]["decl"]) for a in n.get("args", []) for x in walk(a)) for n in ins)
+    always = bool(ins) and g.must_pass(set(g.sites_of_nodes(ins)))
+    if always and okargs:
+        ck.ob(rid, sitestr(fn), True, "setAttribute() stores (name, value) on every path", key="LogMessage::setAttribute|effect")
+        return
+    # why is it skipped?
+    eqs = [n for n in fn.all_nodes() if n.get("k") == "call" and n.get("ck") == "operator" and n.get("op") in ("==", "!=") and any("QVariant" in (a.get("type") or "") for a in n.get("args", []))]
+    eqs += [n for n in fn.all_nodes() if n.get("k") == "binop" and n.get("op") in ("==", "!=") and any("QVariant" in ((x or {}).get("type") or "") for x in (n.get("lhs"), n.get("rhs")))]
+    ck.ob(rid, sitestr(fn, eqs[0] if eqs else (ins[0] if ins else None)), False if (eqs or not ins or not okargs) else None,
+          "setAttribute() skips the write when the stored value compares equal (%s): QVariant's == converts between types, so overwriting 1 with true, '404' with 404 or ['1','2'] with [1,2] is "
+          "silently dropped and the record shows the old value and type" % describe(eqs[0])[:40] if eqs else
+          "setAttribute() does not store (name, value) on every path" if ins and okargs else "setAttribute() no longer stores its value argument", key="LogMessage::setAttribute|effect")
